@@ -434,6 +434,51 @@ def c01_all_types(kind: int, r: int, a: int, b: int) -> bool:
     return ok
 
 
+def a_twin(t, how):
+    """a look-alike of type t: same shape, the innermost (first) leaf changed — its qualifier (how=0), its name (1) or its namespace (2)"""
+    const, nss, name, args, suf = t
+    if args:
+        return (const, nss, name, (a_twin(args[0], how),) + tuple(args[1:]), suf)
+    if how == 0:
+        return (not const, nss, name, args, {"": "*", "*": "", "&": "", "@": "*"}[suf])
+    if how == 1:
+        return (const, nss, {"Cls": "Cls3", "int": "double", "This": "Cls", "unsigned char": "char"}[name], args, suf)
+    return (const, (("zz",) + tuple(nss)) if name not in ("int", "unsigned char") else nss, name if name not in ("int", "unsigned char") else "Cls", args, suf)
+
+
+def c01_type_twins(r1: int, r2: int, a: int, how: int) -> bool:
+    """
+    Two type expressions of ONE file that differ only deep inside (`std::vector<Box<Cls*>>` next to `std::vector<Box<Cls>>`;
+    another leaf name; another leaf namespace), as arguments of one function, as return type and argument, in a class and in
+    the next declaration: each node of the tree holds its own type — none is replaced by its look-alike parsed earlier.
+    pre: 0 <= r1 < NA_ROOT and 0 <= r2 < NA_ROOT and 0 <= a < NA_LEAF and 0 <= how <= 2
+    pre: r1 % (4 if THOROUGH else 16) == a % (4 if THOROUGH else 16) and (THOROUGH or r2 == (r1 * 7 + a) % NA_ROOT)
+    post: _
+    """
+    r1, a, how = pick(r1, 0, NA_ROOT), pick(a, 0, NA_LEAF), pick(how, 0, 3)
+    r2 = pick(r2, 0, NA_ROOT) if THOROUGH else (r1 * 7 + a) % NA_ROOT
+    with concrete():
+        from harness.project import p_type
+        leaf = a_leaf(a)
+        ok = True
+        if a_allowed(leaf, ""):
+            t1 = a_root(r1, [a_root(r2, [leaf]), a_leaf((a + 9) % NA_LEAF)][:1 + a % 2]) if a_allowed(a_leaf((a + 9) % NA_LEAF), "") else a_root(r1, [a_root(r2, [leaf])])
+            t2 = a_twin(t1, how)
+            text = ("void f(%s a, %s b);\nclass C { %s g(%s c) const; %s p; };\n%s v;\n" % (itext(t1), itext(t2), itext(t2), itext(t1), itext(t2), itext(t1)))
+            try:
+                m = parser.Module.parseString(text)
+                got = [p_type(m.content[0].args.list()[0].ctype), p_type(m.content[0].args.list()[1].ctype), p_type(m.content[1].methods[0].return_type.type1),
+                       p_type(m.content[1].methods[0].args.list()[0].ctype), p_type(m.content[1].properties[0].ctype), p_type(m.content[2].ctype)]
+            except Exception as ex:
+                got = ["raised %s" % type(ex).__name__]
+            want = [x_type(t) for t in (t1, t2, t2, t1, t2, t1)]
+            if got != want:
+                i = next((k for k, (g, w) in enumerate(zip(got, want)) if g != w), 0)
+                ok = _fail(text=text, position=i, got=got[i] if i < len(got) else got, want=want[i])
+    reached({"r1": r1, "r2": r2, "a": a, "how": how} if not ok else None)
+    return ok
+
+
 # ---------------------------------------------------------------- identifiers built from reserved spellings
 def _keywords():
     """alphabetic words the LIVE grammar matches as Keyword / Literal anywhere (read from the object graph)"""
@@ -531,6 +576,8 @@ def conds(tier):
                 bounds="%d x %d member-kind pairs%s" % (NMK, NMK, " x %d member types (defaults / bases derived)" % NTY if not q else " (types / defaults / bases derived)")),
         xh.Cond(M, "c01_all_types", t(600, 2400), kind=sb, examples=["kind=0, r=0, a=43, b=0", "kind=1, r=11, a=35, b=0", "kind=2, r=47, a=127, b=3", "kind=1, r=3, a=3, b=0"],
                 bounds="every type expression of a small algebra (128 leaves in all 11 type positions; 48 templated roots with 1-2 leaf arguments: %s)" % ("one argument: all roots x leaves x 11 positions; two arguments: every second (root, leaf) pair x 6 second arguments x 4 positions" if not q else "each root with every fourth (one argument) / sixteenth (two arguments) leaf, second argument derived, 3 of the 11 positions each, rotating")),
+        xh.Cond(M, "c01_type_twins", t(300, 1800), kind=sb, examples=["r1=11, r2=16, a=43, how=0", "r1=0, r2=0, a=0, how=1", "r1=35, r2=8, a=99, how=2"],
+                bounds="pairs of look-alike types nested two deep (%s of the 48 x 48 x 128 root / inner root / leaf choices) x 3 kinds of inner difference, in 6 type positions of one file" % ("every fourth (root, leaf) pair, all inner roots" if not q else "every sixteenth (root, leaf) pair, inner root derived")),
         xh.Cond(M, "c01_keyword_identifiers", t(300, 900), kind=sb, examples=["pos=0, kw=3, form=0", "pos=7, kw=0, form=0", "pos=20, kw=5, form=0"],
                 bounds="%d identifier positions x %d reserved words of the live grammar x %d ways of extending them into an identifier" % (NPOS, NKW, NFORM)),
         xh.Cond(M, "c01_toplevel", t(300, 3000), kind=sb, examples=["ka=2, kb=9, kc=4, t0=7, d0=3, nsdepth=2", "ka=3, kb=10, kc=8, t0=1, d0=1, nsdepth=3"],
